@@ -95,6 +95,13 @@ func (f *Family) URL(pos int, typ string, slot int, kind string) string {
 		return "http://" + host + path
 	case "HTTP":
 		return "HTTP://" + host + path
+	case "httpq":
+		// distribution points of one certificate that differ in nothing but the
+		// query string
+		if typ == "d" {
+			return fmt.Sprintf("http://%s%s?partition=%d", f.Host(pos, typ, 0), path, slot)
+		}
+		return "http://" + host + path
 	case "https", "ldap", "ftp":
 		return kind + "://" + host + path
 	case "file":
@@ -122,6 +129,14 @@ func (f *Family) Host(pos int, typ string, slot int) string {
 // DeltaURL returns the k-th delta location of a CRL slot.
 func (f *Family) DeltaURL(pos, slot, k int) string {
 	return fmt.Sprintf("http://%s/delta%d.crl", f.Host(pos, "d", slot), k)
+}
+
+// BaseRoute returns the network route of a CRL slot's base list.
+func (f *Family) BaseRoute(pos, slot int, kind string) string {
+	if kind == "httpq" {
+		return fmt.Sprintf("%s/base.crl?partition=%d", f.Host(pos, "d", 0), slot)
+	}
+	return f.Host(pos, "d", slot) + "/base.crl"
 }
 
 func (f *Family) spec(pos int, s Shape) *pki.Cert {
